@@ -384,7 +384,7 @@ StepResult(st, o, c, sc) ==
               [C |-> c, why |-> IF o.oc \in {"ok", "parse_error", "runtime_error"} THEN "" ELSE "outcome outside the alphabet: " \o o.oc]
          ELSE LET S == RunProgram(st.ast, CtxOf(c, st.ctx))
                   w == RunWhy(o, S) IN
-              IF o.oc = "parse_error" /\ StaticRejectable(S)
+              IF o.oc = "parse_error" /\ (StaticRejectable(S) \/ (Has(st, "static_ok") /\ Failed(S)))
               THEN \* a type/rank error may be found at compile time: the whole text is rejected, nothing ran
                    [C |-> c, why |-> IF ~NoResidue(o) THEN "parse state left behind" ELSE IF o.out # "" THEN "a rejected text produced output" ELSE ""]
               ELSE IF w = "UNDECIDED" /\ Has(st, "unpinned")
